@@ -1,7 +1,129 @@
-From Coq Require Import List Bool.
+(** * C10 — copy / deepcopy / pickle round trip keeps all fields, never carries a
+    cached hash.
+
+    Property theorems only; each is closed by [exact] of a lemma from
+    [C10/Proofs.v] and followed by [Print Assumptions].  The statements quantify
+    over arbitrary class chains (any length, any mixture of slotted and dict
+    classes, any number of fields), arbitrary field values and arbitrary histories
+    of hash / assign operations.  The full-strength statement (no guard) is FALSE of
+    the faithful model — see the [_refuted] witnesses — so the round trip is proved
+    under the explicit guard [wf], each conjunct of which excludes one witness. *)
+From Coq Require Import List Bool Arith.
 Import ListNotations.
 From Attrs Require Import C10.Model C10.Proofs.
 
-Theorem wire_drops_wrapper : forall v, match deep_pv v with PWrap _ => False | _ => True end.
-Proof. exact deep_never_wrap. Qed.
-Print Assumptions wire_drops_wrapper.
+(** For every guarded (chain, operation, history) and all field values: the
+    operation succeeds, every own and inherited field of the copy is equal, the
+    copy == the original, and if the original is hashable the copy's hash equals
+    the hash of a fresh instance with its field values and (unless the original's
+    own cache is stale) the original's hash. *)
+Theorem roundtrip_fields : forall m fv h o,
+  wf m o h = true -> post_ok m h (observe m fv h o) = true.
+Proof. exact roundtrip_post_l. Qed.
+Print Assumptions roundtrip_fields.
+
+(** After deepcopy, pickle (any protocol), the legacy tuple state, and after
+    copy.copy through a generated pair, the copy's cache is None: the next hash()
+    recomputes from the copy's own fields. *)
+Theorem cache_not_carried : forall m fv h o,
+  wf m o h = true -> leaf_cache m = true ->
+  (is_copy o = true -> resolve m <> RDefault) ->
+  exists y, run m (apply_hist m (init m fv) h) o = XOk y /\ getattr m y KCache = Some PNone.
+Proof. exact cache_not_carried_l. Qed.
+Print Assumptions cache_not_carried.
+
+(** The generated __setstate__ of a cache_hash class always leaves the cache at
+    None — whatever state it is fed (dict, legacy tuple, anything) and whatever
+    the instance held before. *)
+Theorem setstate_resets : forall m r st y,
+  leaf_cache r = true -> getattr m (gen_setstate m r st y) KCache = Some PNone.
+Proof. exact setstate_resets_l. Qed.
+Print Assumptions setstate_resets.
+
+(** getstate_setstate: explicit flag, else follows slots, unless an own pair is
+    auto-detected. *)
+Theorem gs_decision_table : forall c,
+  gs_decision c =
+  match s_gs c with
+  | Some flag => flag
+  | None => s_slots c && negb (s_autodetect c && s_usergs c)
+  end.
+Proof. exact gs_decision_table_l. Qed.
+Print Assumptions gs_decision_table.
+
+(** Who satisfies the guard: a class that generates its own pair, over ANY mixture
+    of slotted and dict bases … *)
+Theorem wf_leaf_generated : forall c bases o h,
+  gs_decision c = true ->
+  old_proto o && is_nil (attr_names (c :: bases)) && s_cache c = false ->
+  wf (c :: bases) o h = true.
+Proof. exact wf_leaf_generated_l. Qed.
+Print Assumptions wf_leaf_generated.
+
+(** … in particular every all-slotted chain with default arguments, of any length … *)
+Theorem wf_all_slots : forall c bases o h,
+  Forall plain_slots (c :: bases) ->
+  old_proto o && is_nil (attr_names (c :: bases)) && s_cache c = false ->
+  wf (c :: bases) o h = true.
+Proof. exact wf_all_slots_l. Qed.
+Print Assumptions wf_all_slots.
+
+(** … and every all-dict chain with default arguments, except the shallow copy of
+    a stale cache. *)
+Theorem wf_all_dict : forall m o h,
+  Forall plain_dict m -> o <> OLegacy ->
+  is_copy o && leaf_cache m && stale m h = false ->
+  wf m o h = true.
+Proof. exact wf_all_dict_l. Qed.
+Print Assumptions wf_all_dict.
+
+(** ** Refuted: the witnesses that force the guard (each reproduced on the real
+    library by the correspondence check, see known_findings.d/C10.json). *)
+
+Theorem roundtrip_unguarded_refuted :
+  exists m fv h o, post_ok m h (observe m fv h o) = false.
+Proof. exact roundtrip_unguarded_refuted_l. Qed.
+Print Assumptions roundtrip_unguarded_refuted.
+
+Theorem K2_copy_carries_cache_refuted :
+  observe [ex_dict_cache] ex_fv [PHash; PMut 0 (VH 7)] OCopy
+  = Ob TOk [FEq] EqTrue HsOk (HoVal false true)
+  /\ post_ok [ex_dict_cache] [PHash; PMut 0 (VH 7)]
+       (observe [ex_dict_cache] ex_fv [PHash; PMut 0 (VH 7)] OCopy) = false
+  /\ post_ok [ex_dict_cache] [PHash; PMut 0 (VH 7)]
+       (observe [ex_dict_cache] ex_fv [PHash; PMut 0 (VH 7)] ODeep) = true.
+Proof. exact K2_refuted_l. Qed.
+Print Assumptions K2_copy_carries_cache_refuted.
+
+Theorem K4_dict_below_slotted_refuted :
+  forallb (fun o =>
+     match observe [ex_dict_leaf; ex_slots_base] ex_fv [] o with
+     | Ob TOk [FEq; FMissing] EqAttrErr _ _ => true
+     | _ => false
+     end) [OCopy; ODeep; OPickle 0; OPickle 2; OPickle 5; OLegacy] = true.
+Proof. exact K4_refuted_l. Qed.
+Print Assumptions K4_dict_below_slotted_refuted.
+
+Theorem K4_cache_uninitialised_refuted :
+  let leaf := C false false true false None false false true [] in
+  observe [leaf; ex_slots_base] ex_fv [] ODeep = Ob TOk [FEq] EqTrue HsOk HoAttrErr.
+Proof. exact K4_cache_refuted_l. Qed.
+Print Assumptions K4_cache_uninitialised_refuted.
+
+Theorem K5_slots_without_getstate_refuted :
+  let c := C true false false true (Some false) false false false [0] in
+  let f := C true true false true (Some false) false false false [0] in
+  o_tag (observe [c] ex_fv [] (OPickle 0)) = TTypeError
+  /\ o_tag (observe [c] ex_fv [] (OPickle 1)) = TTypeError
+  /\ post_ok [c] [] (observe [c] ex_fv [] (OPickle 2)) = true
+  /\ forallb (fun o => match o_tag (observe [f] ex_fv [] o) with TFrozen => true | _ => false end)
+       [OCopy; ODeep; OPickle 2; OPickle 5] = true.
+Proof. exact K5_refuted_l. Qed.
+Print Assumptions K5_slots_without_getstate_refuted.
+
+Theorem K12_empty_state_old_protocols_refuted :
+  let c := C true false true false None false false true [] in
+  observe [c] ex_fv [] (OPickle 1) = Ob TOk [] EqTrue HsOk HoAttrErr
+  /\ post_ok [c] [] (observe [c] ex_fv [] (OPickle 2)) = true.
+Proof. exact K12_refuted_l. Qed.
+Print Assumptions K12_empty_state_old_protocols_refuted.
